@@ -261,8 +261,10 @@ def ext_rule_text(rnd, ds):
     x = rnd.random()
     if x < 0.45: count = rnd.choice(COUNTS + [500, 1000]); p.append('COUNT=%d' % count)
     elif x < 0.65:
-        d0 = D.date(*ds[:3]); u = d0 + D.timedelta(rnd.choice([0, 1, 30, 366, 3000, 20000]))
+        # (an UNTIL before DTSTART, even before everything a table calendar covers: nothing may come out then)
+        d0 = D.date(*ds[:3]); u = d0 + D.timedelta(rnd.choice([0, 1, 30, 366, 3000, 20000, 20000, -1, -400, -20000, -60000]))
         if u.year > 2098: u = D.date(2098, 12, 31)
+        if u.year < 1900: u = D.date(1900, 1, 1)
         until = inst((u.year, u.month, u.day) + tuple(ds[3:]))
         p.append('UNTIL=' + ('%04d%02d%02d' % tuple(until[:3]) if until[3] == 255 else '%04d%02d%02dT%02d%02d%02dZ' % tuple(until[:6])))
     return ';'.join(p), count, until
